@@ -1009,6 +1009,11 @@ def handle : List String → String
     match cfgOfStr cfg, readWhole tree with
     | some cfg, some t => outStr (compile cfg t)
     | _, _ => "bad-op"
+  | "visit" :: cfg :: tree =>
+    -- evaluation only (a variable declaration: the value is not serialized)
+    match cfgOfStr cfg, readWhole tree with
+    | some cfg, some t => outStr (visitValue cfg false t)
+    | _, _ => "bad-op"
   | "print" :: tree =>
     match readWhole tree with
     | some t => "ok " ++ " ".intercalate ((pr t).map tokStr)
